@@ -106,7 +106,12 @@ func TestVerifHybridSlow(t *testing.T) {
 			tr.op("trial", ss("98"), ss("0"))
 			continue
 		}
-		// the worker is inside secondary.Set(key, ...) now
+		// the worker is inside secondary.Set(key, ...) now: the evicted entry is on its way, not gone
+		if c%4 >= 2 {
+			if _, ok, _ := s.GetWithSecodary(key); !ok {
+				tr.viol(fmt.Sprintf("C15: key %d, evicted for capacity, is in neither tier while the worker is writing it to the secondary cache: a Get misses", key))
+			}
+		}
 		for len(iterDone) > 0 {
 			<-iterDone
 		}
